@@ -485,8 +485,91 @@ def ctx_evals_match(F, want):
     return True, ""
 
 
+# ----------------------------------------------------------------------------- scenarios for native replay
+def mval(model, term):
+    return model.eval(term, model_completion=True)
+
+
+def variant_name(ex, model, v):
+    vs = ex.adt_variants(v.ty)
+    if isinstance(v.discr, int):
+        return vs[v.discr][0]
+    k = mval(model, v.discr).as_long()
+    return vs[k][0] if k < len(vs) else "?"
+
+
+def outcome_of(ex, model, r, style):
+    """concrete class of one body evaluation result under the model"""
+    if variant_name(ex, model, r) == "Err":
+        return "err:" + variant_name(ex, model, err_payload(ex, r))
+    v = ok_payload(ex, r)
+    if style == "coalesce":
+        return "null" if variant_name(ex, model, v) == "Null" else "value"
+    if style == "value":
+        return "value"
+    return "truthy" if z3.is_true(mval(model, truthy_of(ex, v.vid))) else "falsy"
+
+
+def make_scenario(macro, F, style_of_code):
+    """-> function(model) -> JSON-able description of a concrete instance of this path's inputs"""
+    def build(model):
+        ex = F.ex
+        sc = {"kind": "macro", "macro": macro, "nargs": mval(model, F.nargs).as_long(), "receiver": variant_name(ex, model, F.this)}
+        idents = {}
+        for k in range(2):
+            ev = F.ident(k) if len(F.idents) > 0 else None
+            if ev is not None:
+                idents[k] = variant_name(ex, model, ev.ret) == "Ok"
+        sc["idents_ok"] = idents
+        seq = None
+        if sc["receiver"] == "List":
+            seq = F.list_seq()
+        elif sc["receiver"] == "Map":
+            seq = ex.notes.get("keys_seq")
+        n = 0
+        if seq is not None:
+            n = seq.length if isinstance(seq.length, int) else mval(model, seq.length).as_long()
+        sc["n"] = n
+        elem_index = {}
+        if seq is not None:
+            for i in range(n):
+                e = F.elem(seq, i)
+                elem_index[("str", e.vid) if sc["receiver"] == "Map" else e.vid] = i
+        codes = {F.code(k): k for k in range(5)}
+        outs = {}
+        order = []
+        for g in F.evals:
+            ck = codes.get(g["code"])
+            style = style_of_code(ck)
+            o = outcome_of(ex, model, g["ret"], style)
+            if g["env"] is None:
+                key = (ck, None)
+            else:
+                idx = [elem_index.get(v) for v in g["env"][2].values() if v in elem_index]
+                key = (ck, idx[0] if idx else None)
+            if key in outs and outs[key] != o:
+                return {"unavailable": f"argument {ck} has two different outcomes for element {key[1]} on this path"}
+            outs[key] = o
+            order.append([ck, key[1], o])
+        sc["outcomes"] = [[k[0], k[1], o] for k, o in outs.items()]
+        sc["evaluation_order_seen"] = order
+        return sc
+    return build
+
+
 # ----------------------------------------------------------------------------- target table
-def make_check(ref_fn, ctx_style=False):
+def make_check(ref_fn, ctx_style=False, macro="?"):
+    def style_of_code(k):
+        if macro == "coalesce":
+            return "coalesce"
+        if macro == "has":
+            return "value"
+        if macro == "reduce":
+            return "value"
+        if macro == "map":
+            return None  # decided below per arity
+        return "pred"
+
     def check(res, V):
         ex = res.ex
         if res.outcome == "panic":
@@ -496,15 +579,22 @@ def make_check(ref_fn, ctx_style=False):
             V.inconclusive.append(f"{res.outcome}: {res.msg}")
             return
         F = Facts(res)
+
+        def soc(k):
+            if macro == "map":
+                three = z3.is_true(z3.simplify(F.nargs == 3)) or ex.solver.check(F.nargs != 3) == z3.unsat
+                return "pred" if (three and k == 1) else "value"
+            return style_of_code(k)
+        scen = make_scenario(macro, F, soc)
         try:
             combos = run_reference(ex, lambda A: ref_fn(A, F))
         except SpecMismatch as e:
-            V.check(ex, "evaluation protocol", False, detail=str(e))
+            V.check(ex, "evaluation protocol", False, detail=str(e), scenario=scen)
             return
         for assumed, exp in combos:
             V.witness(exp.result[0] + (":" + exp.note.split(" at ")[0] if exp.note else ""))
             V.check(ex, f"result is {exp.result[0]}", result_matches(ex, res.ret, exp.result), assumed,
-                    detail=lambda: f"expected {exp.result} ({exp.note}); returned {res.ret!r}")
+                    detail=lambda: f"expected {exp.result} ({exp.note}); returned {res.ret!r}", scenario=scen)
             if exp.evals is not None:
                 if ctx_style:
                     ok, why = ctx_evals_match(F, exp.evals)
@@ -513,7 +603,7 @@ def make_check(ref_fn, ctx_style=False):
                     if ref_fn is ref_reduce:
                         codes = {F.code(2)}
                     ok, why = evals_match(F, exp.evals, codes)
-                V.check(ex, "body evaluations: order, multiplicity, bindings, early stop", ok, assumed, detail=why)
+                V.check(ex, "body evaluations: order, multiplicity, bindings, early stop", ok, assumed, detail=why, scenario=scen)
     return check
 
 
@@ -521,7 +611,7 @@ TARGETS = []
 
 
 def add(name, prop, func, ref, ctx_style=False, what=""):
-    TARGETS.append(dict(name=name, prop=prop, func=func, cfg=MACRO_CFG, make_args=macro_args, check=make_check(ref, ctx_style), what=what,
+    TARGETS.append(dict(name=name, props=[prop, "C01"], func=func, cfg=MACRO_CFG, make_args=macro_args, check=make_check(ref, ctx_style, name.split("_", 1)[1]), what=what,
                         bounds={"list_len": f"0..={LIST_BOUND}", "macro_args": f"0..={ARGS_BOUND}"}))
 
 
